@@ -180,6 +180,26 @@ func edited(v any) (any, bool) {
 	return nil, false
 }
 
+func subtleVariants(t string) []string {
+	var out []string
+	if strings.Contains(t, "\n") {
+		out = append(out, strings.ReplaceAll(t, "\n", "\r\n"), strings.ReplaceAll(t, "\n", "\r"))
+	}
+	out = append(out, t+" ", " "+t, t+"\n")
+	for i := 0; i < len(t); i++ {
+		c := t[i]
+		if c >= 'a' && c <= 'z' {
+			out = append(out, t[:i]+string(c-32)+t[i+1:])
+			break
+		}
+		if c >= 'A' && c <= 'Z' {
+			out = append(out, t[:i]+string(c+32)+t[i+1:])
+			break
+		}
+	}
+	return out
+}
+
 // Mutations enumerates single-point alterations of every node below root whose
 // path starts with prefix ("" = everything). kinds selects mutation kinds.
 func Mutations(root any, prefix string, kinds map[string]bool) []Mutation {
@@ -195,6 +215,13 @@ func Mutations(root any, prefix string, kinds map[string]bool) []Mutation {
 			if kinds["edit"] {
 				if nv, ok := edited(v); ok {
 					add(path, "edit", setAt(root, path, func(p any, s step) { assign(p, s, nv) }))
+				}
+			}
+			if str, ok := v.(string); ok && kinds["subtle"] {
+				// alterations a normalising comparison would not see: line endings, padding, letter case
+				for _, nv := range subtleVariants(str) {
+					nv := nv
+					add(path, "subtle", setAt(root, path, func(p any, s step) { assign(p, s, nv) }))
 				}
 			}
 			if kinds["replace"] {
